@@ -35,8 +35,11 @@ def ref_sign(alg, jwk, msg, s_form):
     return sig
 
 
-def h_from_ref(ctx):
-    alg, kind = ctx.choose("alg/key", scen.JWS_KINDS)
+LONG_KINDS = [("HS256", "oct32"), ("RS256", "rsa"), ("ES256", "P-256"), ("EdDSA", "Ed25519")]
+
+
+def h_from_ref(ctx, kinds=None, payloads=None):
+    alg, kind = ctx.choose("alg/key", kinds or scen.JWS_KINDS)
     path = ctx.choose("path", c03.PATHS)
     jwk = scen.key(kind)
     extras = ctx.choose("extras", [{}, {"kid": "k/1", "typ": "JOSE+é"}])
@@ -45,11 +48,9 @@ def h_from_ref(ctx):
         hdr.update({"b64": False, "crit": ["b64"]})
     spell_name, text = ctx.choose("spelling", A.spellings(hdr))
     s_form = ctx.choose("ecdsa_s", ["low-S", "high-S"] if alg in ES else ["as-is"])
-    pls = A.payload_classes(full=config.thorough())
+    pls = payloads or A.payload_classes(full=config.thorough())
     if path == "7797-flattened":
         pls = [(n, p) for n, p in pls if c03._is_utf8(p)]
-    elif path == "7797-compact":
-        pass
     pname, payload = ctx.choose("payload", pls)
     seg = b64.enc(text.encode("utf-8"))
     b64mode = not path.startswith("7797")
@@ -114,15 +115,15 @@ def h_from_ref(ctx):
     return Outcome(f"{'ok' if not vs else 'bad'}:{alg}:{path}:{spell_name}", vs, nontrivial=("ref->lib", alg, kind, path, spell_name, pname, s_form))
 
 
-def h_to_ref(ctx):
-    alg, kind = ctx.choose("alg/key", scen.JWS_KINDS)
+def h_to_ref(ctx, kinds=None, payloads=None):
+    alg, kind = ctx.choose("alg/key", kinds or scen.JWS_KINDS)
     path = ctx.choose("path", c03.PATHS)
     placement = ctx.choose("placement", ["protected"] if path in ("compact", "7797-compact") else ["protected", "unprotected-alg", "split", "empty-protected"])
     extras = ctx.choose("extras", [None, {"kid": "k/1", "cty": 'q"\\é\u0001'}])
-    pls = A.payload_classes(full=config.thorough())
+    pls = payloads or A.payload_classes(full=config.thorough())
     if path == "7797-flattened":
         pls = [(n, p) for n, p in pls if c03._is_utf8(p)]
-    if path == "7797-flattened":
+    if path == "7797-flattened" and not payloads:
         pls = pls + [("not-utf8:" + n, p) for n, p in A.payload_classes(full=config.thorough()) if not c03._is_utf8(p)]
     pname, payload = ctx.choose("payload", pls)
     if pname.startswith("not-utf8:"):
@@ -216,6 +217,70 @@ def h_vectors(ctx):
 
 
 _pv = Part("rfc-vectors", h_vectors, split_depth=1)
+
+
+TWIN_VALUES = [True, 1, 1.0, False, 0, 0.0, -0.0, "1", 10 ** 3, 1e3]      # values that compare (and hash) alike in Python but are different JSON texts
+
+
+def typed(x):
+    """A value with the JSON type of every part of it: 1, 1.0 and true are three different things on the wire."""
+    if isinstance(x, dict):
+        return {k: typed(v) for k, v in x.items()}
+    if isinstance(x, (list, tuple)):
+        return [typed(v) for v in x]
+    return (type(x).__name__, repr(x))
+
+
+def h_twin_headers(ctx):
+    """Two tokens signed one after the other whose headers differ only in values Python takes for equal (1 / 1.0 / true, 0 / false / -0.0):
+    the independent implementation verifies each and reads exactly the header that was given for it."""
+    from joserfc import jws, jwt
+    alg, kind = ctx.choose("alg/key", [("HS256", "oct32"), ("ES256", "P-256")])
+    path = ctx.choose("path", ["compact", "flattened", "general", "jwt"])
+    first = ctx.choose("first", TWIN_VALUES)
+    second = ctx.choose("second", TWIN_VALUES)
+    where = ctx.choose("value_sits", ["top-level", "nested"])
+    jwk = scen.key(kind)
+    key = A.jkey(jwk, "dict")
+    pub = jwk if jwk["kty"] == "oct" else rjwk.public_of(jwk)
+    reg = jws.JWSRegistry(algorithms=[alg], strict_check_header=False)
+    vs = []
+    for n, val in enumerate((first, second)):
+        hdr = {"alg": alg, "ver": val} if where == "top-level" else {"alg": alg, "ext": {"ver": val, "list": [val]}}
+        given = copy.deepcopy(hdr)
+        if path == "compact":
+            r = call(jws.serialize_compact, hdr, b"payload", key, registry=reg)
+        elif path == "jwt":
+            r = call(jwt.encode, hdr, {"iss": "a"}, key, registry=reg)
+        elif path == "flattened":
+            r = call(jws.serialize_json, {"protected": hdr}, b"payload", key, registry=reg)
+        else:
+            r = call(jws.serialize_json, [{"protected": hdr}], b"payload", key, registry=reg)
+        what = f"{alg} {path}: token #{n + 1} of headers with {first!r} then {second!r} ({where})"
+        if not r.ok:
+            vs.append(viol(f"signing fails for a header with an application-defined member: {alg[:2]}* {path}", f"{what}: {r.exc!r}"))
+            continue
+        try:
+            if isinstance(r.value, str):
+                h, _ = rjws.verify_compact(r.value, pub)
+            else:
+                hs, _ = rjws.verify_json(json.loads(json.dumps(r.value)), pub)
+                h = hs[0]
+        except RefError as e:
+            vs.append(viol(f"independent verifier rejects a token whose header resembles an earlier one: {alg[:2]}* {path}", f"{what}: {e!r}"))
+            continue
+        h = {k: v for k, v in h.items() if k != "typ" or "typ" in given}
+        if typed(h) != typed(given):
+            vs.append(viol(f"the header on the wire is not the one given when an earlier header compared equal to it: {alg[:2]}* {path}", f"{what}: given {given!r}, on the wire {h!r}"))
+    return Outcome(f"twins:{'ok' if not vs else 'bad'}:{path}", vs, nontrivial=(alg, path, repr(first), repr(second), where))
+
+
+def h_long(ctx):
+    """Both directions with payloads around 64 KiB and its multiples."""
+    if ctx.choose("direction", ["joserfc-to-ref", "ref-to-joserfc"]) == "joserfc-to-ref":
+        return h_to_ref(ctx, LONG_KINDS, A.long_payloads())
+    return h_from_ref(ctx, LONG_KINDS, A.long_payloads())
+
 _pv.single_bucket_ok = True
 def h_nested_edit(ctx):
     """Two peer tokens with the same protected header, which holds nested values (crit, x5c, jwk); the caller edits a nested value
@@ -320,6 +385,8 @@ _pne.single_bucket_ok = True
 PARTS = [
     _pms, _pne,
     Part("thread-schedules", h_threads, bound={"quick": 1, "thorough": 2}, split_depth=3, budget={"quick": 2000, "thorough": 3000}, engine="E3"),
+    Part("long-payloads", h_long, split_depth=2),
+    Part("headers-that-compare-equal-signed-in-sequence", h_twin_headers, split_depth=2),
     Part("ref-to-joserfc", h_from_ref, split_depth=2, budget={"quick": 1200, "thorough": 1500}),
     Part("joserfc-to-ref", h_to_ref, split_depth=2, budget={"quick": 1200, "thorough": 1500}),
     _pv,
